@@ -13,13 +13,14 @@ def check(ctx):
         "record.events / properties to record.properties; R4 the commit and sweep releases pass the trace's own "
         "ActiveCollector.danglings (attachments survive cycles); R5 a DropCollect discards parked attachments only when "
         "cancelable; R6 capture_local_spans opens a scope on every path, so local attachments made under an inner span "
-        "cannot land on the enclosing one.")
+        "cannot land on the enclosing one; R7 every (key, value) conversion closure keeps key and value in place.")
     ctx.not_decided = ("'exactly once ... on no other', order across routes, arbitrary strings: values are moved, never "
                        "inspected (origins show only clone/to_vec/into), equality of contents is a runtime fact.")
     facts = ctx.facts("E")
     provrules.rule_pseudo_spans(ctx, facts, "R1")
     provrules.rule_amend_routes(ctx, facts, "R2")
     provrules.rule_mount(ctx, facts, "R3")
+    provrules.rule_pairs_keep_orientation(ctx, facts, "R7")
     from .. import scopes
     scopes.rule_scope_always_opened(ctx, facts, "R6")
     c = collector.Collector(ctx, facts)
